@@ -1010,11 +1010,6 @@ def run(res, tier):
     res.rule("C07.3 block bound: emit when size == the tree's block size, evaluated after each append; sorter cuts leaves with the same number by (ceil count, g*S, min((g+1)S, n)); particle ranges contiguous from 0")
     res.rule("C07.4 ancestor closure: appended value = parent of cell i of each group of level L+1, i over [0,nbCells), de-duplicated against the last appended value; levels H-2..0; leaf level 1:1 from particle groups")
     res.rule("C07.5 sorted leaves: sort comparator key = member filled from getIndexFromPosition = key the leaves are cut on, cut after the sort, accessor returns that key")
-    res.rule("C07.7 trees after rebuild: rebuild() builds the groups with the construction facts of the constructor (sorter, split, emplace / parent / index calls, conditions, level interval - rule C13.3); groups kept on a test that does not consult the sorter's split are a second definition of leaf membership")
-    import c13 as _c13
-    _sub13 = tbf.Result("C13")
-    _c13.run(_sub13, "quick")
-    tbf.reexport(res, _sub13, ("C13.3",), "C07.7.rebuilt-as-built", min_instances=10)
     ctors = [c for c in ctor_of(facts, "TbfTree", 2)]
     if len(ctors) != 1:
         raise AnalysisBroken("TbfTree: %d particle-taking constructors" % len(ctors))
@@ -1023,3 +1018,8 @@ def run(res, tier):
     flush_discipline(facts, res, fns)
     closure_and_bound(facts, res, fns)
     sorter_split(facts, res)
+    res.rule("C07.7 trees after rebuild: rebuild() builds the groups with the construction facts of the constructor (sorter, split, emplace / parent / index calls, conditions, level interval - rule C13.3); groups kept on a test that does not consult the sorter's split are a second definition of leaf membership")
+    import c13 as _c13
+    _sub13 = tbf.Result("C13")
+    tbf.donor_run(res, _c13, _sub13)
+    tbf.reexport(res, _sub13, ("C13.3",), "C07.7.rebuilt-as-built", min_instances=10)
